@@ -1,6 +1,6 @@
 SPECIFICATION TraceSpec
 CONSTANTS
-  Sess = {1, 2, 3, 4, 5, 6}
+  Sess = {1, 2, 3, 4, 5, 6, 7, 8, 9, 10, 11, 12, 13, 14, 15, 16, 17, 18, 19, 20}
   MaxcSet = {1}
   MaxBytes = 0
   Dev = "none"
